@@ -118,6 +118,10 @@ void CONmtReset(CO_NMT *nmt, CO_NMT_RESET type)
         if (err != CO_ERR_NONE) {
             nmt->Node->Error = CO_ERR_LSS_LOAD;
         }
+        /* release the switch delay timer of a pending 'activate bit timing' */
+        if (nmt->Node->Lss.Tmr >= 0) {
+            (void)COTmrDelete(&nmt->Node->Tmr, nmt->Node->Lss.Tmr);
+        }
         COLssInit(&nmt->Node->Lss, nmt->Node);
 #endif //USE_LSS
         COTmrClear(&nmt->Node->Tmr);
